@@ -160,7 +160,7 @@ func TestCheck(t *testing.T) {
 	r.Rule("case = one fresh cluster (n,k, share index i, 3-4 validators, real threshold BLS keys, lock pubshares wired like app.wireCoreWorkflow), a beacon mock with a 3-fork schedule whose last fork lands next to the current epoch, " +
 		"and one target: a validator-API endpoint of the real secure validatorapi.Component of node i, or a duty type on the real parsigex.ParSigEx of node i (real Eth2 verifier, real duty gater on a harness clock, in-memory libp2p). " +
 		"Per case: valid submissions (must be admitted exactly), then every single alteration: each reflection-enumerated leaf of the submitted go-eth2-client object, signature by another share / validator / the group key / a foreign key, " +
-		"other domain type, other fork version, zero / infinity / garbage signature, unknown / non-cluster / other validator, share index 0 / n+1 / negative / other peer, unknown or malformed pubkey, duty outside the gater window or of an invalid type, batches with one bad item, coordinated multi-item batches (signatures swapped / rotated, key shares shifted by cancelling offsets), "+
+		"other domain type, other fork version, zero / infinity / garbage signature, unknown / non-cluster / other validator, share index 0 / n+1 / negative / other peer, unknown or malformed pubkey, duty outside the gater window or of an invalid type, batches with one bad item, coordinated multi-item batches (signatures swapped / rotated, key shares shifted by cancelling offsets), " +
 		"fault injection on the peer path: a sample of the invalid (and valid) messages is re-delivered to a second real ParSigEx whose stream-handler context (p2p receive timeout) is done after gating / ends inside the first verification, " +
 		"proposals: payload != agreed proposal (index, blinded flag, version, body) with a valid signature. non-trivial = baseline admitted and at least one must-reject alteration exercised; distinct = hash(target, kind/version, n, k, i, classes exercised)")
 	r.Assume("tbls.Verify / tbls.Sign (herumi) are the trusted base of the independent re-verification (C08 checks them)")
@@ -199,6 +199,7 @@ func TestCheck(t *testing.T) {
 	r.Require("must_reject_rejected", 800)
 	r.Require("vapi_must_reject_rejected", 300)
 	r.Require("peer_must_reject_rejected", 300)
+	r.Require("overlap_trials", 20)
 	r.Require("universal_checks", int64(len(plan)))
 	r.Require("may_admit_admitted", 20)
 	r.Require("peer_verifications_started_with_done_context", 50)
